@@ -65,14 +65,17 @@ IAnsUnsafe == { [A0 EXCEPT !.st = s, !.ccp = 0, !.ma = None, !.etag = 0, !.loc1 
 (***************************************************************************)
 WStored == { [A0 EXCEPT !.ma = 5, !.swr = w, !.vary = <<2>>, !.lm = l] : w \in {None, 10}, l \in (IF Thorough THEN {None, 100} ELSE {None}) }
 WFull == { [A0 EXCEPT !.ma = 60, !.etag = 2, !.vary = v[1], !.vs = v[2]] : v \in (IF Thorough THEN {<<<<2>>, 0>>, <<<<2, 3>>, 0>>, <<<<>>, 0>>} ELSE {<<<<2>>, 0>>, <<<<2, 3>>, 0>>}) }
-W304 == IF Thorough THEN { [A304 EXCEPT !.ma = m, !.age = a, !.nodate = d, !.etag = e, !.fl = f] : m \in {50, 5, None}, a \in {None, 2}, d \in {0, 1}, e \in {1, 2},
-                                                                                                  f \in {<<>>, <<"public">>, <<"must-revalidate">>, <<"no-cache">>} }
-        ELSE { A304, [A304 EXCEPT !.ma = None, !.nodate = 1], [A304 EXCEPT !.age = 2], [A304 EXCEPT !.etag = 2],
+W304Q == { A304, [A304 EXCEPT !.ma = None, !.nodate = 1], [A304 EXCEPT !.age = 2], [A304 EXCEPT !.etag = 2],
                [A304 EXCEPT !.ma = 5, !.nodate = 1],   \* a short new lifetime that starts when the 304 is received, not at the old Date
                [A304 EXCEPT !.ma = 5, !.age = 2],      \* ... of which the 304's own Age has used up a part
                [A304 EXCEPT !.fl = <<"must-revalidate">>, !.ma = 5], [A304 EXCEPT !.fl = <<"no-cache">>],
                [A304 EXCEPT !.vary = <<2, 3>>], [A304 EXCEPT !.vs = 1],   \* a 304 may change the Vary field like any other
                [A304 EXCEPT !.fl = <<"public">>] }      \* two directives: the lifetime is not the first one
+\* thorough: lifetime x Age x Date in full, the other dimensions one at a time (the full product times the rest of the
+\* tree does not finish)
+W304 == IF Thorough THEN W304Q \cup { [A304 EXCEPT !.ma = m, !.age = a, !.nodate = d] : m \in {50, 5, None}, a \in {None, 2}, d \in {0, 1} }
+                                   \cup { [A304 EXCEPT !.etag = 2, !.ma = m] : m \in {5, None} }
+        ELSE W304Q
 
 (***************************************************************************)
 (* family "cond": client-supplied conditional requests                     *)
